@@ -1,121 +1,171 @@
-// Copyright 2013 The Go Authors. All rights reserved.
-// Use of this source code is governed by a BSD-style
-// license that can be found in the LICENSE file.
+package main
 
-package interp
-
-// Custom hashtable atop map.
-// For use when the key's equivalence relation is not consistent with ==.
-
-// The Go specification doesn't address the atomicity of map operations.
-// The FAQ states that an implementation is permitted to crash on
-// concurrent map access.
+// Insertion-ordered maps for the interpreted program (deterministic iteration,
+// symbolic keys by forking on equality with the keys present).
 
 import (
 	"go/types"
 )
 
-type hashable interface {
-	hash(t types.Type) int
-	eq(t types.Type, x interface{}) bool
+type omapEntry struct {
+	key, val value
+	dead     bool
 }
 
-type entry struct {
-	key   hashable
-	value value
-	next  *entry
+type omap struct {
+	entries []omapEntry
+	idx     map[int][]int
+	symKeys int
+	n       int
 }
 
-// A hashtable atop the built-in map.  Since each bucket contains
-// exactly one hash value, there's no need to perform hash-equality
-// tests when walking the linked list.  Rehashing is done by the
-// underlying map.
-type hashmap struct {
-	keyType types.Type
-	table   map[int]*entry
-	length  int // number of entries in map
-}
+func newOmap() *omap { return &omap{idx: map[int][]int{}} }
 
-// makeMap returns an empty initialized map of key type kt,
-// preallocating space for reserve elements.
-func makeMap(kt types.Type, reserve int64) value {
-	if usesBuiltinMap(kt) {
-		return make(map[value]value, reserve)
-	}
-	return &hashmap{keyType: kt, table: make(map[int]*entry, reserve)}
-}
-
-// delete removes the association for key k, if any.
-func (m *hashmap) delete(k hashable) {
-	if m != nil {
-		hash := k.hash(m.keyType)
-		head := m.table[hash]
-		if head != nil {
-			if k.eq(m.keyType, head.key) {
-				m.table[hash] = head.next
-				m.length--
-				return
+// hasSym reports whether v contains a symbolic scalar or symbolic string byte.
+func hasSym(v value) bool {
+	switch x := v.(type) {
+	case sym:
+		return true
+	case *symstr:
+		for _, b := range x.b {
+			if _, ok := b.(sym); ok {
+				return true
 			}
-			prev := head
-			for e := head.next; e != nil; e = e.next {
-				if k.eq(m.keyType, e.key) {
-					prev.next = e.next
-					m.length--
-					return
-				}
-				prev = e
+		}
+		return false
+	case structure:
+		for _, e := range x {
+			if hasSym(e) {
+				return true
+			}
+		}
+	case array:
+		for _, e := range x {
+			if hasSym(e) {
+				return true
+			}
+		}
+	case iface:
+		return x.v != nil && hasSym(x.v)
+	}
+	return false
+}
+
+// normKey replaces all-concrete symstr by Go strings (copying).
+func normKey(v value) value {
+	switch x := v.(type) {
+	case *symstr:
+		if s, ok := concreteStr(x); ok {
+			return s
+		}
+	case iface:
+		if x.v != nil {
+			return iface{x.t, normKey(x.v)}
+		}
+	case structure:
+		r := make(structure, len(x))
+		for i := range x {
+			r[i] = normKey(x[i])
+		}
+		return r
+	case array:
+		r := make(array, len(x))
+		for i := range x {
+			r[i] = normKey(x[i])
+		}
+		return r
+	}
+	return v
+}
+
+func (i *interpreter) mapFind(m *omap, kt types.Type, k value) int {
+	if m == nil {
+		return -1
+	}
+	k = normKey(k)
+	if m.symKeys == 0 && !hasSym(k) {
+		h := hash(kt, kt, k)
+		for _, ix := range m.idx[h] {
+			e := &m.entries[ix]
+			if !e.dead && equals(kt, e.key, k) {
+				return ix
+			}
+		}
+		return -1
+	}
+	for ix := range m.entries {
+		e := &m.entries[ix]
+		if e.dead {
+			continue
+		}
+		if i.truth(i.eqValue(kt, e.key, k), "mapkey") {
+			return ix
+		}
+	}
+	return -1
+}
+
+func (i *interpreter) mapInsert(m *omap, kt types.Type, k, v value) {
+	k = normKey(k)
+	if ix := i.mapFind(m, kt, k); ix >= 0 {
+		m.entries[ix].val = v
+		return
+	}
+	m.entries = append(m.entries, omapEntry{key: k, val: v})
+	m.n++
+	if hasSym(k) {
+		m.symKeys++
+	} else {
+		h := hash(kt, kt, k)
+		m.idx[h] = append(m.idx[h], len(m.entries)-1)
+	}
+}
+
+func (i *interpreter) mapDelete(m *omap, kt types.Type, k value) {
+	ix := i.mapFind(m, kt, k)
+	if ix < 0 {
+		return
+	}
+	e := &m.entries[ix]
+	e.dead = true
+	m.n--
+	if hasSym(e.key) {
+		m.symKeys--
+	} else {
+		h := hash(kt, kt, e.key)
+		lst := m.idx[h]
+		for j, x := range lst {
+			if x == ix {
+				m.idx[h] = append(append([]int{}, lst[:j]...), lst[j+1:]...)
+				break
 			}
 		}
 	}
+	e.val = nil
 }
 
-// lookup returns the value associated with key k, if present, or
-// value(nil) otherwise.
-func (m *hashmap) lookup(k hashable) value {
-	if m != nil {
-		hash := k.hash(m.keyType)
-		for e := m.table[hash]; e != nil; e = e.next {
-			if k.eq(m.keyType, e.key) {
-				return e.value
+func (m *omap) len() int {
+	if m == nil {
+		return 0
+	}
+	return m.n
+}
+
+type omapIter struct {
+	m   *omap
+	pos int
+	end int
+}
+
+func (it *omapIter) next() tuple {
+	if it.m != nil {
+		for it.pos < it.end && it.pos < len(it.m.entries) {
+			e := it.m.entries[it.pos]
+			it.pos++
+			if !e.dead {
+				return tuple{true, e.key, e.val}
 			}
 		}
 	}
-	return nil
-}
-
-// insert updates the map to associate key k with value v.  If there
-// was already an association for an eq() (though not necessarily ==)
-// k, the previous key remains in the map and its associated value is
-// updated.
-func (m *hashmap) insert(k hashable, v value) {
-	hash := k.hash(m.keyType)
-	head := m.table[hash]
-	for e := head; e != nil; e = e.next {
-		if k.eq(m.keyType, e.key) {
-			e.value = v
-			return
-		}
-	}
-	m.table[hash] = &entry{
-		key:   k,
-		value: v,
-		next:  head,
-	}
-	m.length++
-}
-
-// len returns the number of key/value associations in the map.
-func (m *hashmap) len() int {
-	if m != nil {
-		return m.length
-	}
-	return 0
-}
-
-// entries returns a rangeable map of entries.
-func (m *hashmap) entries() map[int]*entry {
-	if m != nil {
-		return m.table
-	}
-	return nil
+	return tuple{false, nil, nil}
 }
